@@ -405,7 +405,8 @@ fn dechunk(mut b: &[u8]) -> Option<Vec<u8>> {
         if size == 0 {
             return Some(out);
         }
-        if b.len() < size + 2 {
+        // `size` comes off the wire: a huge hex value must not overflow here.
+        if b.len() < size.checked_add(2)? {
             return None;
         }
         out.extend_from_slice(&b[..size]);
